@@ -130,16 +130,16 @@ pub trait BW6Config: 'static + Eq + Sized {
         }
 
         // f_1(P) = f_(u+1)(P) = f_u(P) * l([u]q, q)(P)
-        let mut f_1 = cfg_chunks_mut!(pairs_1, 4)
-            .map(|pairs| {
-                pairs.iter_mut().fold(f_u, |mut f, (p, coeffs)| {
-                    BW6::<Self>::ell(&mut f, &coeffs.next().unwrap(), &p.0);
-                    f
-                })
-            })
-            .product::<<BW6<Self> as Pairing>::TargetField>();
+        // `f_u` already is the product over all pairs, so it has to enter exactly once:
+        // the remaining line evaluations are folded over all the pairs together.
+        let mut f_1 = pairs_1.iter_mut().fold(f_u, |mut f, (p, coeffs)| {
+            BW6::<Self>::ell(&mut f, &coeffs.next().unwrap(), &p.0);
+            f
+        });
 
-        let mut f_2 = cfg_chunks_mut!(pairs_2, 4)
+        // The second loop starts from, and keeps multiplying by, the global `f_u`, so all
+        // the pairs have to share a single accumulator (no independent chunks here).
+        let mut f_2 = core::iter::once(&mut pairs_2[..])
             .map(|pairs| {
                 let mut f = f_u;
                 for i in (1..Self::ATE_LOOP_COUNT_2.len()).rev() {
